@@ -111,12 +111,18 @@ func (p *proxy) call(ctx erpc.UnknownCallCtx) (interface{}, *erpc.Status) {
 		label.RealIP = goutil.BytesToString(realIPBytes)
 	}
 	label.ServiceMethod = ctx.ServiceMethod()
+	// forward the body bytes under the codec they were encoded with
+	settings = append(settings, erpc.WithBodyCodec(ctx.GetBodyCodec()))
 	callcmd := p.callForwarder(&label).Call(label.ServiceMethod, ctx.InputBodyBytes(), &result, settings...)
 	// a call that failed before any reply arrived has no input metadata
 	if inputMeta := callcmd.InputMeta(); inputMeta != nil {
 		inputMeta.VisitAll(func(key, value []byte) {
 			ctx.SetMeta(goutil.BytesToString(key), goutil.BytesToString(value))
 		})
+	}
+	// and hand the reply bytes back under the codec the backend used
+	if replyCodec := callcmd.InputBodyCodec(); replyCodec != 0 {
+		ctx.SetBodyCodec(replyCodec)
 	}
 	stat := callcmd.Status()
 	if !stat.OK() && stat.Code() < 200 && stat.Code() > 99 {
@@ -142,6 +148,7 @@ func (p *proxy) push(ctx erpc.UnknownPushCtx) *erpc.Status {
 		label.RealIP = goutil.BytesToString(realIPBytes)
 	}
 	label.ServiceMethod = ctx.ServiceMethod()
+	settings = append(settings, erpc.WithBodyCodec(ctx.GetBodyCodec()))
 	stat := p.pushForwarder(&label).Push(label.ServiceMethod, ctx.InputBodyBytes(), settings...)
 	if !stat.OK() && stat.Code() < 200 && stat.Code() > 99 {
 		// a new status: the one returned may be a status shared by the whole process
